@@ -456,7 +456,8 @@ class LinearLeastSquares(App):
             if self.G is None:
                 v = self.x.copy()
             else:
-                v = self.G(self.x)
+                # G may return (a view of) x itself: v is a separate variable.
+                v = xp.array(self.G(self.x))
 
             u = xp.zeros_like(v)
 
